@@ -80,6 +80,12 @@ def check(F, rep, tier):
                                     c2 = F.fn(mir.rv_at(fn, *o2.data)[1]["path"])
                                     if c2 is not None: out += leaf_calls(c2, ["cp", [0]], depth + 1)
                         continue
+                    # presence plumbing: `Some(s).filter(|s| !s.is_empty())`, `x?` on an Option - the text itself is not touched
+                    if c.endswith("Option::<T>::filter") or c.endswith("as std::ops::Try>::branch") or "FromResidual" in c or c.endswith("Option::<T>::then_some") or c.endswith("bool::then") or c.endswith("bool::then_some"):
+                        if c.endswith("::filter") or c.endswith("Try>::branch"):
+                            out += leaf_calls(fn, t[2][0], depth + 1)
+                        elif c.endswith("then_some") and len(t[2]) > 1: out += leaf_calls(fn, t[2][1], depth + 1)
+                        continue
                     out.append(c)
                 elif o.kind == "agg":
                     for a in mir.rv_at(fn, *o.data)[2]: out += leaf_calls(fn, a, depth + 1)
